@@ -163,6 +163,14 @@ func hostileProgram(r *rand.Rand) *gen.Program {
 		case 0: // index / slice with an arbitrary number
 			base := []gen.VarInfo{{Name: "an", T: tArrN}, {Name: "s2", T: tStr}, {Name: "nn", T: tArrAN}, {Name: "as", T: tArrS}}[r.Intn(4)]
 			idx := g.Expr(tNum, 2)
+			if r.Intn(2) == 0 {
+				// the edges of the valid range, computed from the length: -(n+1), -n, -1, n-1, n, n+1
+				ln := call("len", tNum, toAny(vr(base.Name, base.T)))
+				idx = []gen.Expr{
+					gen.Binary{Op: "-", L: gen.Unary{Op: "-", X: ln}, R: nl(1), T: tNum}, gen.Unary{Op: "-", X: ln}, nl(-1),
+					gen.Binary{Op: "-", L: ln, R: nl(1), T: tNum}, ln, gen.Binary{Op: "+", L: ln, R: nl(1), T: tNum}, nl(0),
+				}[r.Intn(7)]
+			}
 			rt := base.T.Sub
 			if base.T.K == gen.Str {
 				rt = tStr
@@ -235,7 +243,7 @@ func c02Run(c *core.Ctx, i int) {
 			base := c05Base(c)
 			ls := classifyLines(base)
 			edits := c05Edits()
-			for try := 0; try < 40; try++ {
+			for try := 0; try < 12; try++ {
 				e := edits[r.Intn(len(edits))]
 				text, ok := e.apply(ls, r.Intn(len(ls)))
 				if !ok {
